@@ -375,6 +375,19 @@ def run(repo, chk):
         chk.expect(bool(via) and okp, "R-C01-5c", "run_sim: every iteration refreshes %s before the solve" % pname, loc(rs),
                    "the demand / source-head parameters must be re-evaluated at the step's final time before each solve",
                    found="path avoiding it: " + g.path_text(w) if w else "no call of %s in run_sim" % pname)
+    # R-C01-6: a connected junction receives its demand: it must not be declared isolated.  The encoding of the connectivity graph is decided by
+    # C09; the clauses that bear on the DD demand sentence are re-used here (status -> entry truth table, both directions, parallel links)
+    from .c09 import pair_rules, status_guards, status_encoding_table
+    ig_ = repo.func(CORE, "WNTRSimulator._initialize_internal_graph")
+    chk.fn(ig_)
+    pair_rules(ig_, chk, "R-C01-6")
+    is_vals_ = lambda n: isinstance(n, ast.Call) and isinstance(n.func, ast.Attribute) and n.func.attr == "append" and unparse(n.func.value) == "vals"
+    enc_ = status_guards(ig_, is_vals_)
+    if not enc_:
+        raise AnchorError("_initialize_internal_graph: status encoding not found")
+    wc_, wo_, other_ = status_encoding_table(enc_[0].test)
+    chk.expect(len(wc_) == 1 and len(wo_) == 1 and wc_ != wo_, "R-C01-6", "a link that is not closed always counts as a connection (the demand of a connected junction is never zeroed)", loc(ig_, enc_[0]),
+               found=unparse(enc_[0].test))
     # R-C01-5e: the refresh is unconditional per element: on every way round the element loop of expected_demand_param / source_head_param
     # the parameter of that element is (re)assigned -- no `continue` or guard may leave a stale value from an earlier time
     for pname, dictname, nloops in (("expected_demand_param", "expected_demand", 2), ("source_head_param", "source_head", 4)):
